@@ -103,7 +103,14 @@ def normalize_order(a, min_val, max_val, result):
                           implies(a[i] <= a[j], le(result[i], result[j])) and implies(a[i] < a[j], lt(result[i], result[j])))))
 
 
-@ensures(NORMALIZE, export=False)
+@hint(NORMALIZE, scoped=True)
+def normalize_h_diff(a, min_val, max_val, result):
+    """differences are scaled by one common factor"""
+    return forall(range(len(a)), lambda i: forall(range(len(a)), lambda j:
+                  result[i] - result[j] == (a[i] - a[j]) * ((max_val - min_val) / (max_of(a) - min_of(a)))))
+
+
+@ensures(NORMALIZE, export=False, uses=['normalize_h_diff'])
 def normalize_affine(a, min_val, max_val, result):
     """affine map: relative spacing (ratios of differences) is preserved"""
     return forall(range(len(a)), lambda i: forall(range(len(a)), lambda j: forall(range(len(a)), lambda k: forall(range(len(a)), lambda l:
